@@ -6,7 +6,7 @@ import itertools
 import jmlib
 from geolib import Gen, Obj, call_impl
 import numpy as np
-from proto import ET
+from proto import ET, proj_close_nn
 
 ID = "C02"
 LEAN_FILES = ["Geo/Props/C02.lean", "Geo/Props/C01b.lean"]
@@ -51,7 +51,51 @@ def same_object_stream(ctx, n):
             ctx.disagree(f"C02:same-object:{kind}", desc, "LinearDependenceError", r[1:3] if r[0] != "ok" else "a result", replay=[desc])
 
 
+def variants_stream(ctx, n):
+    """(a) the keyword variant join(..., _normalize_result=False) used inside the library still rejects dependent arguments;
+    (b) grids of joins built with expand_dims: every pair, with the exact mask of the dependent ones"""
+    import geometer as g
+    from geometer.exceptions import LinearDependenceError
+    rng = ctx.rng
+    for k in range(n):
+        dim = rng.choice([2, 3])
+        p = np.array([float(rng.randint(-4, 4)) for _ in range(dim)] + [1.0])
+        lam = rng.choice([2.0, -1.0, 0.5])
+        desc = f"join(p, {lam} p, _normalize_result=False) p={p.tolist()}"
+        ctx.case(desc)
+        ctx.count("keyword-variant")
+        r = call_impl(lambda: g.join(g.Point(p), g.Point(p * lam), _normalize_result=False))
+        if not (r[0] == "err" and r[1] == "LinearDependence"):
+            ctx.disagree("C02:keyword-variant", desc, "LinearDependenceError", r[1:3] if r[0] != "ok" else "a result", replay=[desc])
+        # grid
+        A = np.array([[float(rng.randint(-3, 3)) for _ in range(dim)] + [1.0] for _ in range(2)])
+        B = np.array([[float(rng.randint(-3, 3)) for _ in range(dim)] + [1.0] for _ in range(3)])
+        if rng.random() < 0.6:
+            B[rng.randrange(3)] = A[rng.randrange(2)] * rng.choice([1.0, -2.0])          # a dependent pair somewhere
+        desc = f"grid join A={A.tolist()} B={B.tolist()}"
+        ctx.case(desc)
+        ctx.count("grid-join")
+        exp_mask = np.array([[np.linalg.matrix_rank(np.stack([a, b])) < 2 for b in B] for a in A])
+        def run():
+            return g.join(g.PointCollection(A).expand_dims(1), g.PointCollection(B).expand_dims(0))
+        r = call_impl(run)
+        if exp_mask.any():
+            ok = r[0] == "err" and r[1] == "LinearDependence" and np.array_equal(np.asarray(getattr(r[2], "dependent_values", None)), exp_mask)
+            if not ok:
+                ctx.disagree("C02:grid-join:dependent", desc, exp_mask.tolist(), r[1:3] if r[0] != "ok" else "no error", replay=[desc])
+        else:
+            ok = r[0] == "ok" and np.asarray(r[1].array).shape[:2] == (2, 3)
+            if ok:
+                for i in range(2):
+                    for j in range(3):
+                        single = g.join(g.Point(A[i]), g.Point(B[j]))
+                        ok = ok and proj_close_nn(np.asarray(r[1].array)[i, j], np.asarray(single.array), 1e-9)
+            if not ok:
+                ctx.disagree("C02:grid-join:value", desc, "join of every pair", r[1:3] if r[0] != "ok" else "differs", replay=[desc])
+
+
 def correspondence(ctx):
+    variants_stream(ctx, ctx.budget(40, 400))
     same_object_stream(ctx, ctx.budget(40, 400))
     import glob, json, os
     for f in sorted(glob.glob(os.path.join(os.path.dirname(__file__), "..", "..", "corpus", "C02", "*.json"))):
